@@ -1,4 +1,5 @@
 import RepeVerif.Model.WriterDiscipline
+import RepeVerif.Gen.Torn
 import RepeVerif.Driver.Common
 /-!
 Driver for the `torn` correspondence family (C05).
@@ -15,12 +16,9 @@ endpoint's two discipline facts and reads the prediction off the final state.
 namespace Repe.Driver.Torn
 open Repe Repe.Driver Repe.WD
 
-/-- The facts claimed for the six endpoints (blocking/async/WebSocket client, blocking/async/WebSocket
-server): each holds its writer lock (or is the only writer) for a whole frame and fails the connection
-when a frame is interrupted. -/
-def claimed : Nat → Option Facts
-  | 0 | 1 | 2 | 3 | 4 | 5 => some ⟨true, true⟩
-  | _ => none
+/-- The facts of the six endpoints (blocking/async/WebSocket client, blocking/async/WebSocket server) as
+re-extracted from the current source (`Gen.Torn`): the model is run with what the code says today. -/
+def claimed (ep : Nat) : Option Facts := (Gen.Torn.obs ep).map Obs.facts
 
 /-- digest (byte expansion) only up to this many bytes; must equal `DIGEST_CAP` of the harness -/
 def digestCap : Nat := 4 * 1024 * 1024
@@ -55,7 +53,7 @@ def natsOf (s : String) : Option (List Nat) := (s.splitOn ":").mapM (·.toNat?)
 
 /-- query prefix, notify flag and body format of the frame writer kind `k` produces on endpoint `ep`
 (clients: c/T call_with_formats, n/t notify_with_formats, m call_message, j/y notify_json, J/Y/b call_json,
-f/F forward_message (async client); servers: r response, p pushed notify) -/
+f/F forward_message (async client); servers: r response, p pushed notify, B notify through `PeerRegistry::broadcast_notify_raw`) -/
 def shape (ep : Nat) (k : Char) : Option (String × Bool × Nat) :=
   if ep ≤ 2 then
     (if k = 'c' ∨ k = 'T' ∨ k = 'm' then some ("/t/", false, 0)
@@ -66,7 +64,7 @@ def shape (ep : Nat) (k : Char) : Option (String × Bool × Nat) :=
      else if k = 'F' ∧ ep = 1 then some ("/t/", false, 0)
      else none)
   else
-    (if k = 'r' then some ("/g/", false, 0) else if k = 'p' ∧ ep = 5 then some ("/p/", true, 0) else none)
+    (if k = 'r' then some ("/g/", false, 0) else if (k = 'p' ∨ k = 'B') ∧ ep = 5 then some ("/p/", true, 0) else none)
 
 def frameOf (ep : Nat) (ws : List (Char × Nat × Nat)) (tag id : Nat) : Option LFrame := do
   let (k, size, qlen) ← ws[tag]?
